@@ -277,3 +277,149 @@ Proof.
     - eapply good_seq_backward; [apply oer_good|eassumption..]. }
   destruct G as [G _]. unfold oer_decode. rewrite G, app_length. f_equal. f_equal. lia.
 Qed.
+
+(** * New ENUMERATED items and CHOICE alternatives seen by the earlier version *)
+Lemma find_name_app z a b :
+  find_name z (a ++ b) = match find_name z a with Some n => Some n | None => find_name z b end.
+Proof.
+  induction a as [|[k y] a IH]; cbn [app find_name]; [reflexivity|]. destruct (z =? y); [reflexivity|exact IH].
+Qed.
+
+Lemma find_num_app n a b :
+  find_num n (a ++ b) = match find_num n a with Some z => Some z | None => find_num n b end.
+Proof.
+  induction a as [|[k y] a IH]; cbn [app find_num]; [reflexivity|]. destruct (String.eqb n k); [reflexivity|exact IH].
+Qed.
+
+Lemma nodup_z_app l1 l2 : nodup_z (l1 ++ l2) = true -> forall x, In x l2 -> ~ In x l1.
+Proof.
+  induction l1 as [|y l1 IH]; cbn [app nodup_z]; intros H x Hx Hin; [destruct Hin|].
+  apply andb_prop in H. destruct H as [Hy H]. destruct Hin as [<-|Hin].
+  - apply negb_true_iff in Hy. rewrite <- not_true_iff_false in Hy. apply Hy.
+    apply existsb_exists. exists y. split; [apply in_or_app; right; exact Hx|apply Z.eqb_refl].
+  - exact (IH H x Hx Hin).
+Qed.
+
+Lemma find_name_notin z items : ~ In z (map snd items) -> find_name z items = None.
+Proof.
+  induction items as [|[k y] r IH]; cbn [map snd find_name In]; intros H; [reflexivity|].
+  destruct (z =? y) eqn:E; [exfalso; apply H; left; lia|]. apply IH. tauto.
+Qed.
+
+Lemma find_num_in n z items : find_num n items = Some z -> In z (map snd items).
+Proof.
+  induction items as [|[k y] r IH]; cbn [find_num map snd In]; [discriminate|].
+  destruct (String.eqb n k); [intros [= ->]; left; reflexivity|right; auto].
+Qed.
+
+(** an item added after the marker decodes as None under the earlier version *)
+Theorem oer_forward_enum_new_item numeric fuel e root ext1 ext2 (name : string) z bs :
+  nodup_z (map snd (root ++ ext1 ++ ext2)) = true ->
+  find_num name (root ++ ext1) = None -> find_num name ext2 = Some z ->
+  oer_encode numeric (S fuel) e (TEnum root (Some (ext1 ++ ext2)))
+             (if numeric then VInt z else VEnum name) = Ok bs ->
+  forall tail,
+    oer_decode numeric (S fuel) e (TEnum root (Some ext1)) (bs ++ tail) = Ok (VNone, length bs).
+Proof.
+  intros Hnd Hn1 Hn2 H tail.
+  assert (Hz : find_name z (root ++ ext1) = None).
+  { apply find_name_notin. rewrite app_assoc, map_app in Hnd.
+    apply (nodup_z_app _ _ Hnd). eapply find_num_in. exact Hn2. }
+  assert (Hv : enc_enum_value z = Ok bs).
+  { cbn [oer_encode enc_step] in H. unfold enc_enum, enum_items in H. destruct numeric.
+    - destruct (find_name z (root ++ ext1 ++ ext2)); [exact H|discriminate].
+    - rewrite app_assoc, find_num_app, Hn1, Hn2 in H. exact H. }
+  assert (G : good (oer_dec numeric (S fuel) e (TEnum root (Some ext1))) bs VNone).
+  { cbn [oer_dec dec_step].
+    apply (good_ext (dbind dec_enum_value
+                           (fun z' => match find_name z' (enum_items root (Some ext1)) with
+                                      | Some n => dret (if numeric then VInt z' else VEnum n)
+                                      | None => dret VNone
+                                      end))).
+    { intros l. unfold dec_enum_value, dec_enum. apply dbind_assoc. }
+    eapply good_bind_nil; [apply good_enum_value; exact Hv|].
+    unfold enum_items. rewrite Hz. apply good_ret. }
+  destruct G as [G _]. unfold oer_decode. rewrite G, app_length. f_equal. f_equal. lia.
+Qed.
+
+Lemma alt_tags_app auto a b : forall i,
+  alt_tags auto i (a ++ b) = alt_tags auto i a ++ alt_tags auto (i + Z.of_nat (length a)) b.
+Proof.
+  induction a as [|m a IH]; intros i; cbn [app alt_tags length].
+  - f_equal. lia.
+  - rewrite IH. replace (i + 1 + Z.of_nat (length a)) with (i + Z.of_nat (S (length a))) by lia. reflexivity.
+Qed.
+
+Lemma find_alt_app n a b :
+  find_alt n (a ++ b) = match find_alt n a with Some x => Some x | None => find_alt n b end.
+Proof.
+  induction a as [|x a IH]; cbn [app find_alt]; [reflexivity|].
+  destruct (String.eqb n (m_name (snd x))); [reflexivity|exact IH].
+Qed.
+
+Lemma find_alt_in n alts x : find_alt n alts = Some x -> In x alts.
+Proof.
+  induction alts as [|y alts IH]; cbn [find_alt]; [discriminate|].
+  destruct (String.eqb n (m_name (snd y))); [intros [= <-]; left; reflexivity|right; auto].
+Qed.
+
+(** an alternative added after the marker, under AUTOMATIC tags, is skipped
+    by the earlier version and reported as the unknown alternative *)
+Theorem oer_forward_choice_new_alternative numeric fuel e root ext1 ext2 n v bs :
+  choice_auto root (Some (ext1 ++ ext2)) = true ->
+  nodup_tags (tags_of (alt_tags true 0 root ++
+                       alt_tags true (Z.of_nat (length root)) (ext1 ++ ext2))) = true ->
+  find_member n (root ++ ext1) = None ->
+  oer_encode numeric (S fuel) e (TChoice root (Some (ext1 ++ ext2))) (VChoice n v) = Ok bs ->
+  forall tail,
+    oer_decode numeric (S fuel) e (TChoice root (Some ext1)) (bs ++ tail) = Ok (VUnknownChoice, length bs).
+Proof.
+  intros Hauto Hnd Hnf H tail.
+  assert (Hauto1 : choice_auto root (Some ext1) = true).
+  { unfold choice_auto in *. apply negb_true_iff in Hauto. apply negb_true_iff.
+    rewrite app_assoc, existsb_app in Hauto. apply orb_false_iff in Hauto. tauto. }
+  rewrite find_member_app in Hnf.
+  destruct (find_member n root) eqn:F1; [discriminate|].
+  cbn [oer_encode enc_step] in H. unfold enc_choice in H. rewrite Hauto in H.
+  assert (R0 : find_alt n (alt_tags true 0 root) = None).
+  { destruct (find_alt n (alt_tags true 0 root)) as [[tg m]|] eqn:E; [|reflexivity].
+    destruct (find_alt_some _ _ _ _ _ _ E) as [F _]. congruence. }
+  rewrite R0 in H. rewrite alt_tags_app, find_alt_app in H.
+  assert (R1 : find_alt n (alt_tags true (Z.of_nat (length root)) ext1) = None).
+  { destruct (find_alt n (alt_tags true (Z.of_nat (length root)) ext1)) as [[tg m]|] eqn:E; [|reflexivity].
+    destruct (find_alt_some _ _ _ _ _ _ E) as [F _]. congruence. }
+  rewrite R1 in H.
+  set (i2 := Z.of_nat (length root) + Z.of_nat (length ext1)) in *.
+  destruct (find_alt n (alt_tags true i2 ext2)) as [[[tg|] m]|] eqn:E2; try discriminate.
+  bind_inv H b Eb. bind_inv H w Ew. inv_eq H. unfold wrap_open in Ew. bind_inv Ew ld Eld. inv_eq Ew.
+  pose proof (find_alt_in _ _ _ E2) as Hin.
+  assert (Hi2 : 0 <= i2) by (unfold i2; lia).
+  assert (Hnum : forallb (fun m => match m_ty m with TTag tg _ => 0 <=? t_num tg | _ => true end) ext2 = true).
+  { unfold choice_auto in Hauto. apply negb_true_iff in Hauto.
+    rewrite !existsb_app in Hauto. apply orb_false_iff in Hauto. destruct Hauto as [_ Hauto].
+    apply orb_false_iff in Hauto. destruct Hauto as [_ Hauto].
+    clear - Hauto. induction ext2 as [|m0 r IHr]; [reflexivity|].
+    cbn [existsb forallb] in *. apply orb_false_iff in Hauto. destruct Hauto as [H0 Hr].
+    rewrite (IHr Hr). destruct (m_ty m0); try reflexivity. discriminate. }
+  destruct (alt_tag_valid true ext2 i2 tg m Hi2 Hnum Hin) as [num [fl [-> [Hn Hfl]]]].
+  rewrite alt_tags_app, tags_of_app, tags_of_app in Hnd.
+  destruct (nodup_tags_app _ _ Hnd) as [_ [Nd2 Dis]].
+  destruct (nodup_tags_app _ _ Nd2) as [_ [_ Dis2]].
+  assert (G : good (oer_dec numeric (S fuel) e (TChoice root (Some ext1))) (encode_tag num fl ++ ld ++ b)
+                   VUnknownChoice).
+  { cbn [oer_dec dec_step]. unfold dec_choice. rewrite Hauto1.
+    assert (Hall : existsb (fun a => match fst a with None => true | Some _ => false end)
+                     (alt_tags true 0 root ++ alt_tags true (Z.of_nat (length root)) ext1) = false).
+    { clear. rewrite existsb_app. apply orb_false_iff. split.
+      - generalize 0. induction root as [|m r IHr]; intros i; cbn; [reflexivity|apply IHr].
+      - generalize (Z.of_nat (length root)). induction ext1 as [|m r IHr]; intros i; cbn; [reflexivity|apply IHr]. }
+    rewrite Hall.
+    eapply good_bind; [apply good_tag; assumption|].
+    rewrite (find_tag_notin _ (alt_tags true 0 root)).
+    2:{ intros Hc. apply (Dis _ Hc). apply in_or_app. right. apply (in_tags_of _ m). exact Hin. }
+    rewrite (find_tag_notin _ (alt_tags true (Z.of_nat (length root)) ext1)).
+    2:{ intros Hc. apply (Dis2 _ Hc). apply (in_tags_of _ m). exact Hin. }
+    eapply good_bind; [apply (good_len (Z.of_nat (length b))); [lia|exact Eld]|].
+    eapply good_bind_ret_eq; [apply good_take|reflexivity]. }
+  destruct G as [G _]. unfold oer_decode. rewrite G, app_length. f_equal. f_equal. lia.
+Qed.
